@@ -42,14 +42,16 @@ var Check = &run.Check{
 	Rule: "case = synthetic code model (1-30 types + optional entry class Main over 1-7 packages 1-5 segments deep, nested and sibling packages, segment alphabets " +
 		"{a,ab,abc,b,bc,bcd,c,cd,d,abcd} chosen so that From+To concatenations of different package pairs are equal (planted explicitly in mode `collision`) and/or {com,org,acme,...}; " +
 		"implements/extends/field/call relations to project types, to non-project types (foreign packages, foreign types inside a project package or under a project top-level segment, bare and empty unresolved names), " +
-		"to the type itself and to Main; methods named main and look-alikes; identifier map = the model's types). Every case runs in-process: Analysis -> graph check; " +
+		"to the type itself and to Main; methods named main and look-alikes; identifier map = the model's types; in 1/5 of the models that allow it some types (also targets of every relation kind) live in the default package; " +
+		"names with underscores and non-ASCII letters, with planted pairs of full names that become equal when characters outside [A-Za-z0-9_] are replaced by '_' (legacy.db_v2.Conn / legacy.db.v2_Conn, shop.Größe / shop.Grüße)). Every case runs in-process: Analysis -> graph check; " +
 		"MergeHeaderFile(MergeHeaderFunc), MergeHeaderFile(MergePackageFunc), and both in sequence (only when every package has >= 2 segments) -> quotient check; " +
 		"ToMapDot(filter).String() of each of these graphs with an include filter drawn per graph (all / substring list / arbitrary subset / none) -> DOT check. " +
 		"Every Nth case also runs `coca arch [-x F] [-H] [-P]` on coca_reporter/deps.json + identify.json and checks coca_reporter/arch.dot with the same oracle. " +
 		"non-trivial = >= 3 nodes in >= 2 packages, edges between project types of >= 2 relation kinds, >= 1 relation to a non-node, and a non-empty package quotient; " +
 		"distinct = hash of (mode, package-tree shape, per-type relation targets by index, filter kinds)",
 	Assumptions: []string{
-		"no type lives in the default package; no type's full name is (a prefix of) another type's package; full names are unique (left open by the statement)",
+		"no type's full name is (a prefix of) another type's package; full names are unique (left open by the statement)",
+		"types of the default package: node, edge and quotient clauses are judged (all of them form ONE group under either merge); the spelling of such a node ('.B' or 'B') and of that group ('' or any one other name) is read from the observed NodeList, and a relation end only counts as that node when it is spelled the same way; how they are drawn in the DOT (leaf, edges, absence) is not judged, because 'under its package path' says nothing for a type without one",
 		"the identifier map is exactly the set of types of the model (that is what makes a type a project type)",
 		"after merging, a node whose name is a segment-prefix of another shown node (a package with sub-packages) is not required to be displayed",
 		"merge-header followed by merge-package is only judged when every package has at least two segments (the name of the group of a one-segment package is left open)",
@@ -181,10 +183,15 @@ func drawFilter(r *run.Rand, nodes []string) filter {
 				subs = append(subs, strings.Join(segs[:r.Range(1, len(segs))], "."))
 			case 1: // one segment
 				subs = append(subs, segs[r.Intn(len(segs))])
-			case 2: // an inner piece of the name
-				i := r.Intn(len(n))
-				j := r.Range(i+1, len(n))
-				subs = append(subs, n[i:j])
+			case 2: // an inner piece of the name (cut at rune boundaries)
+				rs := []rune(n)
+				if len(rs) == 0 {
+					subs = append(subs, n)
+					break
+				}
+				i := r.Intn(len(rs))
+				j := r.Range(i+1, len(rs))
+				subs = append(subs, string(rs[i:j]))
 			default:
 				subs = append(subs, n)
 			}
@@ -208,6 +215,9 @@ func cliFilter(r *run.Rand, nodes []string) string {
 	}
 	for try := 0; try < 8; try++ {
 		n := nodes[r.Intn(len(nodes))]
+		if n == "" || strings.HasPrefix(n, ".") {
+			continue // a node of the default package: not used to build a filter
+		}
 		segs := strings.Split(n, ".")
 		f := strings.Join(segs[:r.Range(1, len(segs))], ".")
 		ok := true
@@ -301,6 +311,46 @@ func runCase(c *run.Ctx, o *run.Outcome) {
 			nodePkgs[t.Pkg] = true
 		}
 	}
+	defTypes, underscore, nonASCII := 0, 0, 0
+	for _, t := range m.Types {
+		if t.Pkg == "" {
+			defTypes++
+		}
+		if strings.Contains(t.Full(), "_") {
+			underscore++
+		}
+		for _, ch := range t.Full() {
+			if ch > 127 {
+				nonASCII++
+				break
+			}
+		}
+	}
+	o.Count("default_package_types", defTypes)
+	if defTypes > 0 {
+		o.Count("models_with_default_package", 1)
+	}
+	for e := range want0.Edges {
+		if strings.HasPrefix(e.To, ".") {
+			o.Count("edges_expected_to_default_package_type", 1)
+			for _, k := range want0.Why[e] {
+				o.Count("edges_expected_to_default_package_type_"+k, 1)
+			}
+		}
+		if strings.HasPrefix(e.From, ".") {
+			o.Count("edges_expected_from_default_package_type", 1)
+		}
+	}
+	for e := range wantH.Edges {
+		if e.From == "" || e.To == "" {
+			o.Count("mergeH_edges_expected_at_default_package_group", 1)
+		}
+	}
+	o.Count("types_with_underscore_in_full_name", underscore)
+	o.Count("types_with_non_ascii_full_name", nonASCII)
+	if len(m.Twins) > 0 {
+		o.Count("models_with_sanitise_twins", 1)
+	}
 	o.Count("types", len(m.Types))
 	o.Count("main_classes", mains)
 	o.Count("nodes_expected", len(want0.Nodes))
@@ -336,6 +386,9 @@ func runCase(c *run.Ctx, o *run.Outcome) {
 	if len(m.Collision) > 0 {
 		witness["planted_collision"] = m.Collision
 	}
+	if len(m.Twins) > 0 {
+		witness["planted_sanitise_twins"] = m.Twins
+	}
 	o.Witness = witness
 
 	// ---- in-process: Analysis
@@ -353,6 +406,15 @@ func runCase(c *run.Ctx, o *run.Outcome) {
 	witness["observed"] = map[string]interface{}{"nodes": n0, "relations": edgeStrings(r0)}
 	o.Count("nodes_observed", len(n0))
 	o.Count("relations_observed", len(r0))
+	alias0 := oracle.ArchAliases("", want0, n0)
+	for _, n := range n0 {
+		if _, ok := alias0[n]; ok {
+			o.Seen("default_package_node_spelling", "Name")
+		} else if strings.HasPrefix(n, ".") {
+			o.Seen("default_package_node_spelling", ".Name")
+		}
+	}
+	n0, r0 = oracle.ArchRename(alias0, n0, r0)
 	ms0 := oracle.CheckArchGraph("", want0, n0, r0)
 	for _, mm := range ms0 {
 		o.Violate(mm.Sig, "%s", mm.Msg)
@@ -363,8 +425,9 @@ func runCase(c *run.Ctx, o *run.Outcome) {
 		want  *oracle.ArchGraph
 		graph *tequila.FullGraph
 		ok    bool
+		open  map[string]bool // names whose drawing is not judged (default package)
 	}
-	stages := []*stage{{name: "", want: want0, graph: g0, ok: len(ms0) == 0}}
+	stages := []*stage{{name: "", want: want0, graph: g0, ok: len(ms0) == 0, open: oracle.ArchOpenInDot("", want0, alias0)}}
 	filters := []string{}
 
 	// ---- in-process: merges (only meaningful on a correct type-level graph)
@@ -383,11 +446,19 @@ func runCase(c *run.Ctx, o *run.Outcome) {
 			nn, rr := snapshot(out)
 			witness[name] = map[string]interface{}{"expected": graphStrings(want), "observed_nodes": nn, "observed_relations": edgeStrings(rr)}
 			o.Count(name+"_graphs_checked", 1)
+			alias := oracle.ArchAliases(name, want, nn)
+			for a := range alias {
+				o.Seen("default_package_group_spelling", fmt.Sprintf("%q", a))
+			}
+			if want.Nodes[""] && len(alias) == 0 {
+				o.Seen("default_package_group_spelling", `""`)
+			}
+			nn, rr = oracle.ArchRename(alias, nn, rr)
 			ms := oracle.CheckArchGraph(name, want, nn, rr)
 			for _, mm := range ms {
 				o.Violate(mm.Sig, "%s", mm.Msg)
 			}
-			st := &stage{name: name, want: want, graph: out, ok: len(ms) == 0}
+			st := &stage{name: name, want: want, graph: out, ok: len(ms) == 0, open: oracle.ArchOpenInDot(name, want, alias)}
 			stages = append(stages, st)
 			return st
 		}
@@ -420,7 +491,7 @@ func runCase(c *run.Ctx, o *run.Outcome) {
 			key = "dot_" + st.name
 		}
 		witness[key] = map[string]interface{}{"filter": f.Desc, "text": dot}
-		checkDot(o, st.name, st.want, included(st.want.Nodes, f.Pred), dot, f.Desc)
+		checkDot(o, m, st.name, st.want, included(st.want.Nodes, f.Pred), st.open, dot, f.Desc)
 	}
 	o.Shape = run.ShapeHash(m.ShapeKey(), strings.Join(filters, ","))
 
@@ -434,7 +505,7 @@ func runCase(c *run.Ctx, o *run.Outcome) {
 	}
 }
 
-func checkDot(o *run.Outcome, stage string, want *oracle.ArchGraph, inc map[string]bool, dot, filterDesc string) {
+func checkDot(o *run.Outcome, m *archgen.Model, stage string, want *oracle.ArchGraph, inc map[string]bool, open map[string]bool, dot, filterDesc string) {
 	pre := "dot-"
 	if stage != "" {
 		pre = "dot-" + stage + "-"
@@ -459,7 +530,19 @@ func checkDot(o *run.Outcome, stage string, want *oracle.ArchGraph, inc map[stri
 			}
 		}
 	}
-	for _, mm := range oracle.CheckArchDot(stage, want, inc, d) {
+	for n := range inc {
+		if open[n] {
+			o.Count("dot_included_nodes_of_default_package(drawing not judged)", 1)
+		}
+	}
+	if stage == "" {
+		for _, tw := range m.Twins {
+			if inc[tw[0]] && inc[tw[1]] {
+				o.Count("dot_graphs_showing_both_sanitise_twins", 1)
+			}
+		}
+	}
+	for _, mm := range oracle.CheckArchDot(stage, want, inc, open, d) {
 		o.Violate(mm.Sig, "%s [filter %s]", mm.Msg, filterDesc)
 	}
 }
@@ -524,7 +607,23 @@ func runCLI(c *run.Ctx, o *run.Outcome, r *run.Rand, witness map[string]interfac
 	}
 	o.Count("cli_dot_leaves_observed", len(d.Leaves))
 	o.Count("cli_dot_edges_observed", len(d.Edges))
-	for _, mm := range oracle.CheckArchDot(stage, want, included(want.Nodes, pred), d) {
+	// the default package: its drawing is not judged; after merging, its group may carry any name, which the
+	// DOT alone cannot tell: a single unknown top-level leaf is taken to be that group
+	open := oracle.ArchOpenInDot(stage, want, nil)
+	if stage != "" && want.Nodes[""] {
+		unknown := map[string]bool{}
+		for _, l := range d.Leaves {
+			if len(l.Path) == 0 && !want.Nodes[l.Full()] {
+				unknown[l.Full()] = true
+			}
+		}
+		if len(unknown) == 1 {
+			for u := range unknown {
+				open[u] = true
+			}
+		}
+	}
+	for _, mm := range oracle.CheckArchDot(stage, want, included(want.Nodes, pred), open, d) {
 		o.Violate("cli-"+mm.Sig, "%s [%s]", mm.Msg, desc)
 	}
 }
